@@ -12,8 +12,8 @@ DEMO_CMD=$(python3 -c "import json;print(json.load(open('$META'))['demo_cmd'])")
 cd $WT || exit 3
 git checkout -q -- . ; git clean -qfd -e target
 git apply $OUT/mut$I.diff || { echo "RESULT $ID-$I patch-does-not-apply"; exit 1; }
-SUITE=$(cargo test --workspace --offline 2>&1 | grep -E "^test result|error(\[|:)" )
-if echo "$SUITE" | grep -qE "FAILED|error"; then echo "RESULT $ID-$I suite-fails-with-change"; echo "$SUITE" | grep -E "FAILED|error" | head -3; git checkout -q -- .; exit 1; fi
+SUITE=$(cargo test --workspace --offline 2>&1 | grep -E "^test result|^error" )
+if echo "$SUITE" | grep -qE "FAILED|^error"; then echo "RESULT $ID-$I suite-fails-with-change"; echo "$SUITE" | grep -E "FAILED|error" | head -3; git checkout -q -- .; exit 1; fi
 mkdir -p "$(dirname $DEMO_PATH)"; cp $OUT/demo$I.rs $DEMO_PATH
 ( eval "$DEMO_CMD" ) > /tmp/mut/out/$ID/confirm$I.with.log 2>&1; RC_WITH=$?
 git apply -R $OUT/mut$I.diff
